@@ -723,10 +723,10 @@ void LDAMulticlassStatistics(matrix *y_true,
       }
 
       if((int)y_pred->data[i][0] == j){
-        ytrue->data[i] = 1;
+        ypred->data[i] = 1;
       }
       else{
-        ytrue->data[i] = 0;
+        ypred->data[i] = 0;
       }
     }
 
